@@ -122,6 +122,7 @@ theorem dials_unchanged (s : State) (i : Input)
     all_goals rfl
   | responseDone f => rfl
   | responderWrites sid response => rfl
+  | clogged => rfl
 
 /-! ## The invariant -/
 
@@ -260,6 +261,8 @@ theorem dialOwed_step (e : EnvState) (i : Input) (h : DialOwed e) (hp : e.s.pani
   | responseDone f =>
     exact dialOwed_keep e _ h (by intros; simp) (by intros; simp) (by intros; simp) rfl keepAll
   | responderWrites sid response =>
+    exact dialOwed_keep e _ h (by intros; simp) (by intros; simp) (by intros; simp) rfl keepAll
+  | clogged =>
     exact dialOwed_keep e _ h (by intros; simp) (by intros; simp) (by intros; simp) rfl keepAll
 where
   dialOwed_keep (e : EnvState) (i : Input) (h : DialOwed e)
